@@ -64,6 +64,7 @@ type tableCfg struct {
 	Rounds    int    `json:"rounds"`
 	Rangers   int    `json:"rangers"`
 	DelayPerM int    `json:"delay_per_mille"`
+	Procs     int    `json:"gomaxprocs"` // 0 = all CPUs; the table's parallel copy splits the buckets by GOMAXPROCS
 }
 
 const (
@@ -500,6 +501,12 @@ func RunC15(col *core.Collector, tier, variant string, seed uint64, shard, nshar
 			Rounds:    1 + r.Intn(3),
 			Rangers:   1 + r.Intn(2),
 			DelayPerM: []int{0, 10, 50, 150}[r.Intn(4)],
+			Procs:     []int{0, 0, 2, 3, 5, 6, 7}[r.Intn(7)],
+		}
+		if cfg.Procs > 0 {
+			runtime.GOMAXPROCS(cfg.Procs)
+		} else {
+			runtime.GOMAXPROCS(runtime.NumCPU())
 		}
 		for cfg.Workers*cfg.Ops/cfg.Hot > 150 {
 			cfg.Ops = cfg.Ops * 2 / 3
